@@ -160,6 +160,54 @@ def tables_c05(out, notes):
         raise Refuse(f"Group.render: expected one list literal of optional attributes, found {lits!r}")
     out.append(f"Definition group_optional_attrs : list str := {coq_list(coq_str(x) for x in lits[0])}.")
 
+    # ---- behaviour probes for two repaired defects: the mirror follows whichever behaviour the tree
+    # under check has (so that the check is green before and after the `fix:` commits land), and the
+    # theorems say what holds in either case.  Anything that is neither behaviour is refused.
+    ref = C.ContactFieldReference("Age", "age", "numeric").render()
+    if ref == {"name": "Age", "key": "age", "type": "numeric"}:
+        own_type = True
+    elif set(ref) == {"name", "key", "type"} and ref["type"] is type:
+        own_type = False
+    else:
+        raise Refuse(f"ContactFieldReference.render of a typed reference gives {ref!r}: neither its own type nor the builtin")
+    out.append(f"Definition fieldref_renders_own_type : bool := {coq_bool(own_type)}.")
+
+    attrs = dict(query="q", status="s", system=False, count=0)
+    other = dict(query="q2", status="s2", system=True, count=7)
+    probe = K.RapidProContainer(groups=[C.Group("G", "u1", **attrs), C.Group("H", None), C.Group("G", None, **other)])
+    rendered = probe.render()["groups"]
+    if len(rendered) != 2 or [g.get("name") for g in rendered] != ["G", "H"] or rendered[0].get("uuid") != "u1" \
+            or not rendered[1].get("uuid") or set(rendered[1]) != {"name", "uuid"}:
+        raise Refuse(f"RapidProContainer.validate lists the top-level groups as {rendered!r}: not one entry per name in order")
+    if rendered[0] == {"name": "G", "uuid": "u1", **attrs}:
+        keeps = True      # the first group of a name keeps its attributes
+    elif rendered[0] == {"name": "G", "uuid": "u1"}:
+        keeps = False     # rebuilt as Group(name, uuid)
+    else:
+        raise Refuse(f"RapidProContainer.validate renders a top-level group as {rendered[0]!r}: a behaviour the C05 model has no mirror for")
+    if probe.render()["groups"] != rendered:
+        raise Refuse("RapidProContainer.validate: a second render lists the groups differently")
+    out.append(f"Definition validate_keeps_group_attrs : bool := {coq_bool(keeps)}.")
+
+    shared = {"uuid": "n1", "actions": [], "exits": [{"uuid": "e1", "destination_uuid": None}, {"uuid": "e2", "destination_uuid": None}],
+              "router": {"type": "switch", "operand": "@input.text", "cases": [], "default_category_uuid": "c3",
+                         "categories": [{"uuid": "c1", "name": "A", "exit_uuid": "e1"}, {"uuid": "c2", "name": "B", "exit_uuid": "e2"},
+                                        {"uuid": "c3", "name": "Other", "exit_uuid": "e1"}]}}
+    ex = [e.get("uuid") for e in N.BaseNode.from_dict(shared).render()["exits"]]
+    if ex == ["e1", "e2"]:
+        once = True       # each exit once, at the place of its first category
+    elif ex == ["e1", "e2", "e1"]:
+        once = False      # one entry per category
+    else:
+        raise Refuse(f"a router node whose categories share an exit renders its exits as {ex!r}: a behaviour the C05 model has no mirror for")
+    rnd = dict(shared, router={"type": "random", "categories": shared["router"]["categories"]})
+    ex2 = [e.get("uuid") for e in N.BaseNode.from_dict(rnd).render()["exits"]]
+    if ex2 != ex:
+        raise Refuse(f"random and switch routers list shared exits differently: {ex2!r} vs {ex!r}")
+    out.append(f"Definition router_lists_shared_exit_once : bool := {coq_bool(once)}.")
+    notes.append(f"C05: probes fieldref_renders_own_type={own_type} validate_keeps_group_attrs={keeps} "
+                 f"router_lists_shared_exit_once={once}")
+
     # ---- set_contact_* properties
     lits = [l for l in list_literals_in(A.SetContactPropertyAction._assign_fields_from_dict)]
     if len(lits) != 1:
